@@ -35,6 +35,7 @@ TECHNIQUE = ('Lean 4 proof (induction over trace-back steps, column lists, suffi
              'integer model of the float code + independent Gotoh / enumeration oracle evaluated on the real output')
 LEAN_MODULES = ["Gv.Props.C09"]
 REQUIRED_THEOREMS = ["Gv.Props.C09." + n for n in [
+    "blosum62_is_published", "dnafull_is_published", "published_matrices_symmetric",
     "sw_valid", "sw_align_valid", "gapLen_bounds", "fill_best_in_range", "gap_not_in_index_maps",
     "index_maps_in_range", "sw_rows_denote_local_alignment", "enum_complete", "enum_optimal",
     "gotoh_upper_bound", "gotoh_attained", "gotoh_eq_enum", "sw_score_is_optimum",
@@ -209,6 +210,13 @@ def gen(rng, tier):
         for s1 in prot:
             for s2 in prot:
                 yield sw_case("mat", ("d", "d", go, ge), s1, s2, "exh3-blosum62-gaps%d" % gi)
+    # ---- every ordered pair of symbols of the two built-in matrices, facing each other inside a conserved frame ----
+    for a in AMINO:
+        for b in AMINO:
+            yield sw_case("mat", ("d", "d", "d", "d"), "MKC" + a + "CLV", "MKC" + b + "CLV", "allpairs-blosum62", 2)
+    for a in IUPAC:
+        for b in IUPAC:
+            yield sw_case("mat", ("d", "d", "d", "d"), "ACGTG" + a + "CATGC", "ACGTG" + b + "CATGC", "allpairs-dnafull", 2)
     # ---- random longer pairs ---------------------------------------------------------------
     N = 15000 if thorough else 1500
     hi = 120 if thorough else 60
